@@ -20,7 +20,7 @@
 //	  scripts  <key>=<script>|<key>=<script>...   script as in op `sess` (pages `rows:state`, `Es<code>`)
 //	  steps    `,`-separated:
 //	    b<k> Bind(k)            z<n> PageSize(n)          f<q> Prefetch(q/4)       c<n> Consistency(n)
-//	    s<n> SerialConsistency  t<n> WithTimestamp(n)     p<n> CustomPayload{"p":[n]} (p0: nil)
+//	    s<n> SerialConsistency  t<n> WithTimestamp(n) (t0: DefaultTimestamp(false))  p<n> CustomPayload{"p":[n]} (p0: nil)
 //	    r<0|1> Trace            o<0|1> Observer           y<n>|y- RetryPolicy(Simple{n})|nil
 //	    i<0|1> Idempotent       e<a><l|s> SetSpeculativeExecutionPolicy(Simple{a, 1h | 1µs})
 //	    g<hex|.> PageState(hex|nil)   n NoSkipMetadata()   w<id> q = q.WithContext(ctx id) (0 = Background;
@@ -430,10 +430,14 @@ func runHist(h hscen) (answer string) {
 			q.SerialConsistency(gocql.SerialConsistency(n))
 		case 't':
 			n, ok := num(arg)
-			if !ok || n < 1 || n >= 1000000 || h.ver < 3 {
+			if !ok || n < 0 || n >= 1000000 || h.ver < 3 {
 				return "bad-op"
 			}
-			q.WithTimestamp(int64(n))
+			if n == 0 {
+				q.DefaultTimestamp(false)
+			} else {
+				q.WithTimestamp(int64(n))
+			}
 		case 'p':
 			n, ok := num(arg)
 			if !ok || n < 0 || n > 255 || h.ver < 4 {
